@@ -96,6 +96,26 @@ class _Subst(ast.NodeTransformer):
         n.args.defaults = [self.visit(d) for d in n.args.defaults]
         return n
 
+    def _comprehension(self, n: Any) -> ast.AST:
+        # the targets of a comprehension are names of its own scope: a temporary of the same name outside is another variable
+        # (only the iterable of the first `for` is evaluated outside)
+        shadow = {x.id for g in n.generators for x in ast.walk(g.target) if isinstance(x, ast.Name)}
+        if not (shadow & set(self.env)):
+            return self.generic_visit(n)
+        sub = _Subst({k: v for k, v in self.env.items() if k not in shadow}, self.rename)
+        first = self.visit(n.generators[0].iter)
+        for i, g in enumerate(n.generators):
+            g.target = sub.visit(g.target)
+            g.iter = first if i == 0 else sub.visit(g.iter)
+            g.ifs = [sub.visit(c) for c in g.ifs]
+        if isinstance(n, ast.DictComp):
+            n.key, n.value = sub.visit(n.key), sub.visit(n.value)
+        else:
+            n.elt = sub.visit(n.elt)
+        return n
+
+    visit_ListComp = visit_SetComp = visit_GeneratorExp = visit_DictComp = _comprehension
+
 
 def _ends(stmts: Sequence[ast.stmt]) -> bool:
     """does control never fall off the end of this block?"""
